@@ -32,6 +32,7 @@ cache = 'akd/src/storage/cache/high_parallelism.rs'
 types = 'akd/src/storage/types.rs'
 aud = 'akd/src/auditor.rs'
 proto = 'akd_core/src/proto/mod.rs'
+traits = 'akd_core/src/ecvrf/traits.rs'
 VERIFIERS = ['C05', 'C06', 'C07', 'C18', 'C20']
 
 # ---------------------------------------------------------------- verifiers
@@ -656,6 +657,60 @@ ben('b-c07-windows', VERIFIERS, (hist,
             )));
         }
     }'''), 'index loop over adjacent pairs rewritten with windows(2)')
+
+ben('b-mgr-set-ifelse', ['C10', 'C14', 'C15', 'C16'], (mgr,
+    '''        // we're in a transaction, set the item in the transaction
+        if self.is_transaction_active() {
+            self.transaction.set(&record);
+            return Ok(());
+        }
+
+        // write to the database
+        self.tic_toc(METRIC_WRITE_TIME, self.db.set(record.clone()))
+            .await?;
+        self.increment_metric(METRIC_SET);
+
+        // update the cache, only once the record is known to be stored
+        if let Some(cache) = &self.cache {
+            cache.put(&record).await;
+        }
+        Ok(())''',
+    '''        if self.is_transaction_active() {
+            // we're in a transaction, set the item in the transaction
+            self.transaction.set(&record);
+        } else {
+            // write to the database
+            self.tic_toc(METRIC_WRITE_TIME, self.db.set(record.clone()))
+                .await?;
+            self.increment_metric(METRIC_SET);
+
+            // update the cache, only once the record is known to be stored
+            if let Some(cache) = &self.cache {
+                cache.put(&record).await;
+            }
+        }
+        Ok(())'''), 'single-exit form with the cache fill kept on the database branch (the correct twin of seed C14-r2-b)')
+ben('b-traits-pk-rename', ['C14', 'C18'], [(traits,
+    '''        let pk = VRFPublicKey::from(&key);
+
+        #[cfg(feature = "parallel_vrf")]''',
+    '''        let public_key = VRFPublicKey::from(&key);
+        let pk = public_key;
+
+        #[cfg(feature = "parallel_vrf")]''')], 'public key bound under another name first')
+ben('b-txn-rollback-local', ['C10', 'C12', 'C15'], (txn,
+    '''        // rollback
+        self.mods.clear();
+
+        self.active.store(false, Ordering::Relaxed);
+        Ok(())''',
+    '''        // rollback
+        let pending = self.mods.len();
+        self.mods.clear();
+        crate::log::debug!("Rolled back {pending} pending records");
+
+        self.active.store(false, Ordering::Relaxed);
+        Ok(())'''), 'log line with the number of discarded records')
 
 out = os.path.join(os.path.dirname(os.path.abspath(__file__)), 'benign.json')
 json.dump({'benign': B}, open(out, 'w'), indent=1)
